@@ -242,14 +242,13 @@ Proof.
     + destruct nums as [|var rest]; auto.
       intros o Hc. destruct (A o Hc) as [P [Q [D1 [D2 D3]]]]. exists P, Q.
       split; [|split]; apply zden_set_handles; assumption.
-  - unfold zentry_x in *. destruct args as [|f [|g [|h [|x rest]]]]; auto; destruct nums as [|v rest']; auto.
-    + destruct A' as [H7 H3]. split.
-      * intros Hc. destruct (H7 Hc) as (P & Q & DF & DG & DR). exists P, Q.
-        split; [|split]; apply zden_set_handles; assumption.
-      * intros Hc. destruct (H3 Hc) as (P & id & nd & M & DF & -> & En & Hcu & DR).
-        exists P, id, nd, M. split; [apply zden_set_handles; exact DF|]. split; [reflexivity|].
-        split; [exact En|]. split; [apply zcube_set_handles; exact Hcu|].
-        apply zden_set_handles. exact DR.
+  - unfold zentry_x in *. destruct args as [|f [|g [|h [|x rest]]]]; auto; destruct nums as [|v [|w rest']]; auto.
+    + intros Hc. destruct (A' Hc) as (P & Q & DF & DG & DR). exists P, Q.
+      split; [|split]; apply zden_set_handles; assumption.
+    + intros Hc Hv. destruct (A' Hc Hv) as (P & id & nd & M & DF & -> & En & Hcu & DR).
+      exists P, id, nd, M. split; [apply zden_set_handles; exact DF|]. split; [reflexivity|].
+      split; [exact En|]. split; [apply zcube_set_handles; exact Hcu|].
+      apply zden_set_handles. exact DR.
     + intros Hc. destruct (A' Hc) as (P & Q & R & DF & DG & DH & DR). exists P, Q, R.
       split; [|split; [|split]]; apply zden_set_handles; assumption.
 Qed.
